@@ -40,7 +40,10 @@ def check(tier, seed):
     # a hand-off that arrives while the target's sender is being torn down (its queue is closed but still registered, or the
     # shutdown signal has fired) must be reported as NOT delivered, so that the receiver keeps the task and retries
     from . import c09
-    cases = [c for c in c09.dv_cases() if c.split()[1] == "msg" and c.split()[2] in ("closed", "closedshutdown", "shutdown")]
+    # ... and acknowledgements whose way to the owning instance is the stream of ANOTHER shard pair (peer 'sibling'): an
+    # acknowledgement carried by the wrong pair's stream would be attributed to the wrong target
+    cases = [c for c in c09.dv_cases() if (c.split()[1] == "msg" and c.split()[2] in ("closed", "closedshutdown", "shutdown"))
+             or (c.split()[1] == "ack" and c.split()[7] in ("sibling", "nostream"))]
     errd, dv = c09.run_dv(cases, "c04")
     if errd:
         ck.obligation("hand-off during teardown", False, errd[:1500])
